@@ -285,7 +285,7 @@ def run_case(unit, case, tier, work, extra_defines=(), witness=False, want_trace
         # --apply-loop-contracts), so the loops are unwound instead
         overlay, report = _stage_injected(unit, work, lenient_loops=witness)
         res.inject_report = report
-        defines = ['-D' + GUARD, '-DVC_CBMC']
+        defines = ['-D' + GUARD, '-DVC_CBMC'] + (['-DVC_THOROUGH=1'] if tier == 'thorough' else [])
         for k, v in sorted(case.items()):
             defines.append('-D%s=%s' % (k, v))
         for d in m.get('defines', []):
